@@ -28,6 +28,7 @@ func c11(c *eng.Ctx, r *eng.Report) {
 	c11Stack(c, r, rows)
 	c11Memory(c, r, rows)
 	c11GasWriters(c, r)
+	c11Forwarded(c, r)
 	c11Depth(c, r)
 	c11Precompiles(c, r)
 	c11Panics(c, r)
@@ -162,7 +163,7 @@ func covered(m eng.MemAccess, regs []eng.MemRegion) bool {
 
 func c11GasWriters(c *eng.Ctx, r *eng.Report) {
 	const rule = "R11.3"
-	r.Min(rule, 9)
+	r.Min(rule, 16)
 	for _, fn := range c.ModFuncs() {
 		for _, st := range eng.FieldStores(fn, "vm.Contract", "Gas") {
 			store := st.(*ssa.Store)
@@ -200,6 +201,101 @@ func c11GasWriters(c *eng.Ctx, r *eng.Report) {
 			}
 		}
 	}
+}
+
+// c11Forwarded: the gas handed to a nested frame must have been deducted from
+// this frame first: it is either the value just passed to UseGas, or
+// evm.callGasTemp (charged by the row's dynamicGas) plus at most a constant
+// stipend that does not exceed the constant charged for a value transfer.
+func c11Forwarded(c *eng.Ctx, r *eng.Report) {
+	const rule = "R11.3"
+	constVal := func(name string) int64 {
+		if k, ok := c.Obj("vm", name).(*types.Const); ok {
+			if v, ok2 := constInt64(k); ok2 {
+				return v
+			}
+		}
+		return -1
+	}
+	transferCharge := constVal("CallValueTransferGas")
+	if v := constVal("AuthCallValueTransferGas"); v >= 0 && v < transferCharge {
+		transferCharge = v
+	}
+	for _, fn := range c.PkgFuncs("vm") {
+		if !strings.HasPrefix(eng.FuncName(fn), "vm.op") {
+			continue
+		}
+		for _, s := range eng.Sites(fn) {
+			callee := s.Static()
+			if callee == nil || !strings.HasPrefix(eng.FuncName(callee), "(*vm.EVM).") || callee.Signature.Recv() == nil {
+				continue
+			}
+			gi := -1
+			for i, p := range callee.Params {
+				if p.Name() == "gas" {
+					gi = i
+				}
+			}
+			if gi < 0 {
+				continue
+			}
+			call := s.Instr.(*ssa.Call)
+			g := call.Call.Args[gi]
+			key := eng.FuncName(fn) + ":forwarded-gas"
+			ok, why := forwardedOK(fn, call, g, transferCharge)
+			r.Check(ok, rule, key, c.Pos(call.Pos()), "gas forwarded to "+eng.FuncName(callee)+" was deducted from this frame first ("+why+")", "gas forwarded to "+eng.FuncName(callee)+" is not covered by a prior deduction: "+why+" — the nested frame can hand back more gas than this frame paid, so gas left can exceed gas supplied")
+		}
+	}
+}
+
+func constInt64(k *types.Const) (int64, bool) {
+	var v int64
+	_, err := fmt.Sscan(k.Val().ExactString(), &v)
+	return v, err == nil
+}
+
+func forwardedOK(fn *ssa.Function, call *ssa.Call, g ssa.Value, maxStipend int64) (bool, string) {
+	// (b) UseGas(g) dominates the call
+	for _, s := range eng.Sites(fn) {
+		if s.Name() == "(*vm.Contract).UseGas" {
+			u := s.Instr.(*ssa.Call)
+			if u.Call.Args[1] == g && eng.Dominates(u, call) {
+				return true, "UseGas of the same value dominates the call"
+			}
+		}
+	}
+	// (a) callGasTemp [+ const stipend]
+	isTemp := func(v ssa.Value) bool {
+		u, ok := v.(*ssa.UnOp)
+		if !ok || u.Op != token.MUL {
+			return false
+		}
+		t, f := eng.FieldOf(u.X)
+		return t == "vm.EVM" && f == "callGasTemp"
+	}
+	var terms []ssa.Value
+	if phi, ok := g.(*ssa.Phi); ok {
+		terms = phi.Edges
+	} else {
+		terms = []ssa.Value{g}
+	}
+	for _, t := range terms {
+		if isTemp(t) {
+			continue
+		}
+		if bo, ok := t.(*ssa.BinOp); ok && bo.Op == token.ADD && isTemp(bo.X) {
+			k, isK := eng.ConstInt(bo.Y)
+			if !isK {
+				return false, "callGasTemp is increased by a non-constant amount (" + eng.Desc(bo.Y) + ")"
+			}
+			if k > maxStipend {
+				return false, fmt.Sprintf("stipend %d exceeds the %d charged for a value transfer", k, maxStipend)
+			}
+			continue
+		}
+		return false, "forwarded gas is " + eng.Desc(t)
+	}
+	return true, "evm.callGasTemp (charged by dynamicGas) plus at most a constant stipend <= the value-transfer charge"
 }
 
 func c11Depth(c *eng.Ctx, r *eng.Report) {
